@@ -41,11 +41,11 @@ def _init():
         return _R
     rt, _core = boot.init()
     from basilisp.lang import reader, keyword as kw, symbol as sym, list as llist, vector as vec
-    from basilisp.lang import map as lmap, set as lset
+    from basilisp.lang import map as lmap, set as lset, queue as lqueue
     from basilisp.lang.interfaces import IPersistentList, IPersistentVector, IPersistentMap, IPersistentSet
     rt.Namespace.get_or_create(sym.symbol(CUR_NS))
     _R.update(rt=rt, reader=reader, kw=kw, sym=sym, llist=llist, vec=vec, lmap=lmap, lset=lset,
-              IL=IPersistentList, IV=IPersistentVector, IM=IPersistentMap, IS=IPersistentSet,
+              IL=llist.PersistentList, IV=IPersistentVector, IQ=lqueue.PersistentQueue, IM=IPersistentMap, IS=IPersistentSet,
               spankeys=(reader.READER_LINE_KW, reader.READER_COL_KW, reader.READER_END_LINE_KW,
                         reader.READER_END_COL_KW))
     return _R
@@ -93,7 +93,7 @@ def nondata(o, depth=0):
             if r:
                 return r
         return None
-    if isinstance(o, (R["IL"], R["IV"], R["IS"], list, tuple, set, frozenset)):
+    if isinstance(o, (R["IL"], R["IV"], R["IS"], R["IQ"], list, tuple, set, frozenset)):
         for x in o:
             r = nondata(x, depth + 1)
             if r:
@@ -168,7 +168,7 @@ class Matcher:
             kind = e[0]
             if kind == "set" and got[0] == sp[0] and got[1] == sp[1] + 1 and got[2:] == list(sp[2:]):
                 out.append(("span:set-literal->starts-after-hash", path, sp, got))
-            elif kind == "map" and got[0] == sp[0] and got[1] > sp[1] and got[2:] == list(sp[2:]) and e[7] == "ns":
+            elif kind == "map" and e[7] == "ns" and (got[0], got[1]) > (sp[0], sp[1]) and got[2:] == list(sp[2:]):
                 out.append(("span:namespaced-map->starts-at-brace", path, sp, got))
             else:
                 out.append(("span-wrong:" + kind, path, sp, got))
@@ -261,24 +261,34 @@ class Matcher:
     def _unordered(self, exp, real, path):
         if len(exp) != len(real):
             return [("length", path, len(exp), len(real))]
-        left = list(real)
-        out = []
-        for n, tup in enumerate(exp):
-            best = None
-            for cand in left:
-                mm = []
-                for ce, co in zip(tup, cand):
-                    mm += self.match(ce, co, path + "{%d}/" % n)
-                if not mm:
-                    best = (cand, [])
-                    break
-                if best is None or len(mm) < len(best[1]):
-                    best = (cand, mm)
-            if best is None:
-                return [("length", path, len(exp), len(real))]
-            left.remove(best[0])
-            out += best[1]
-        return out
+        n = len(exp)
+        mm = [[None] * n for _ in range(n)]
+
+        def cost(i, j):
+            if mm[i][j] is None:
+                r = []
+                for ce, co in zip(exp[i], real[j]):
+                    r += self.match(ce, co, path + "{%d}/" % i)
+                mm[i][j] = r
+            return mm[i][j]
+        # perfect matching by augmenting paths over the pairs that match exactly
+        owner = [-1] * n
+
+        def aug(i, seen):
+            for j in range(n):
+                if j not in seen and not cost(i, j):
+                    seen.add(j)
+                    if owner[j] < 0 or aug(owner[j], seen):
+                        owner[j] = i
+                        return True
+            return False
+        bad = [i for i in range(n) if not aug(i, set())]
+        if not bad:
+            return []
+        i = bad[0]
+        free = [j for j in range(n) if owner[j] < 0]
+        best = min((cost(i, j) for j in free), key=len) if free else [("length", path, n, n)]
+        return best
 
 
 # ------------------------------------------------------------------------------------------------
@@ -318,6 +328,9 @@ def reread_spans(text, forms, cap=40):
     n = 0
     while todo and n < cap:
         o = todo.pop()
+        if isinstance(o, R["IL"]) and len(o) > 0 and isinstance(o.first, R["sym"].Symbol) \
+                and o.first.name == "fn*" and o.first.meta is None:
+            continue              # #(...) is a reader macro whose body is rewritten (% arguments)
         if isinstance(o, (R["IL"], R["IV"], R["IS"])):
             todo.extend(list(o))
         elif isinstance(o, R["IM"]):
@@ -325,9 +338,6 @@ def reread_spans(text, forms, cap=40):
                 todo.extend((k, v))
         if not isinstance(o, (R["sym"].Symbol, R["IL"], R["IV"], R["IS"], R["IM"])):
             continue
-        if isinstance(o, R["IL"]) and len(o) > 0 and isinstance(o.first, R["sym"].Symbol) \
-                and o.first.name == "fn*" and o.first.meta is None:
-            continue                                   # #(...) is a reader macro, not a collection literal
         m = getattr(o, "meta", None)
         if m is None:
             continue
@@ -449,10 +459,13 @@ def _mask_names(mask):
     return "|".join(n for b, n in ((OK, "ok"), (EOF, "eof"), (SYN, "syntax")) if mask & b)
 
 
-def variants(cps):
-    """concretisations of one enumerated string: (name, text, substitution)"""
+def variants(cps, thin=False):
+    """concretisations of one enumerated string: (name, text, substitution); thin: beyond the length up to
+    which skeletons are compared only every 4th string (by content) gets the 2nd and 3rd concretisation"""
     base = "".join(map(chr, cps))
     out = [("first-reps/LF", base, None)]
+    if thin and sum((i + 1) * c for i, c in enumerate(cps)) % 4:
+        return out
     alt = "".join(chr(SUBST.get(c, c)) for c in cps)
     if "\\\n" not in alt:       # a character literal \<CR> would split the CRLF pair: not the same program
         alt = alt.replace("\n", "\r\n")
@@ -467,7 +480,7 @@ def variants(cps):
 # spec -> code
 # ------------------------------------------------------------------------------------------------
 def _replay_blocks(args):
-    blocks, alphabet = args
+    blocks, alphabet, thin_from = args
     _init()
     n = 0
     nontriv = 0
@@ -479,7 +492,7 @@ def _replay_blocks(args):
         for cps, code in cases:
             if code[0] != OK or (len(code) > 3 and code[3]):
                 nontriv += 1
-            for vname, text, subst in variants(cps):
+            for vname, text, subst in variants(cps, thin=len(code) < 2 or len(cps) >= thin_from):
                 n += 1
                 for clause, sig, want, got in judge(text, code, subst):
                     bad.append({"clause": clause, "sig": sig, "cps": cps, "variant": vname, "text": text,
@@ -492,8 +505,31 @@ def _pool(n=16):
     return multiprocessing.get_context("fork").Pool(n)
 
 
-def gen_job(chk, pool, cfg, name, timeout=3000):
-    r = tlc.run("Reader", cfg, timeout=timeout)
+class Bg:
+    """a TLC job running in a background thread (started after the process pool exists)"""
+
+    def __init__(self, module, cfg, **kw):
+        import threading
+        import time
+        self.r = self.err = None
+
+        def go():
+            try:
+                self.r = tlc.run(module, cfg, **kw)
+            except BaseException as e:  # noqa
+                self.err = e
+        self.t = threading.Thread(target=go, daemon=True)
+        self.t.start()
+        time.sleep(0.3)          # tlc.run numbers its scratch directories with an unlocked counter
+
+    def result(self):
+        self.t.join()
+        if self.err is not None:
+            raise self.err
+        return self.r
+
+
+def gen_job(chk, pool, r, name):
     chk.add_tlc(name, r)
     if r.violated or not r.ok:
         chk.machinery("%s: the reader specification violates its own invariants: %s\n%s"
@@ -504,7 +540,8 @@ def gen_job(chk, pool, cfg, name, timeout=3000):
     alphabet = ALPHABETS[name]
     blocks.sort(key=lambda b: b["p"])
     step = max(1, len(blocks) // 256)
-    chunks = [(blocks[i:i + step], alphabet) for i in range(0, len(blocks), step)]
+    thin_from = 4 if len(alphabet) > 20 else 99      # the widest level of the 23-character alphabet
+    chunks = [(blocks[i:i + step], alphabet, thin_from) for i in range(0, len(blocks), step)]
     strings = 0
     for n, nontriv, bad in pool.imap_unordered(_replay_blocks, chunks):
         chk.count(n, traces=n)
@@ -687,7 +724,7 @@ def trace_job(chk, pool, name, texts_cuts):
         nreads += sum(1 for x in v if x) + len(probs)
     chk.count(nreads, traces=nreads)
     path = tlc.write_json("c16_" + name, recs)
-    r = tlc.run("Reader_Trace", "Reader_Trace.cfg", env={"TRACE_FILE": path}, timeout=3000)
+    r = tlc.run("Reader_Trace", "Reader_Trace.cfg", env={"TRACE_FILE": path}, timeout=3000, heap="6g")
     chk.add_tlc("Reader_Trace/" + name, r)
     os.unlink(path)
     if r.violated or not r.ok:
@@ -732,7 +769,7 @@ def code_to_spec(chk, pool):
     g = Gen(rnd)
     progs = []
     seen = set()
-    while len(progs) < (60 if quick else 1500):
+    while len(progs) < (40 if quick else 600):
         p = g.program()
         if p not in seen and len(p) <= 90:
             seen.add(p)
@@ -740,7 +777,7 @@ def code_to_spec(chk, pool):
     # grammar programs: every prefix, and single-character edits (observed at the end only)
     tc = [(p, list(range(len(p) + 1))) for p in progs]
     for p in progs:
-        for e in edits(rnd, p, 30 if quick else 100):
+        for e in edits(rnd, p, 25 if quick else 25):
             tc.append((e, [len(e)]))
     chk.sample({"grammar_program": progs[0]})
     chk.extra["grammar_programs"] = len(progs)
@@ -749,31 +786,20 @@ def code_to_spec(chk, pool):
     chk.extra["source_chunks"] = len(chunks)
     small = [c for c in chunks if len(c[1]) <= 400]
     rnd.shuffle(small)
-    budget = 4000 if quick else 10 ** 9
+    budget = 3000 if quick else 250000
     used = 0
+    if not quick:
+        rnd.shuffle(chunks)
     for fn, t in (small if quick else chunks):
         if len(t) > 4000 or used + len(t) > budget:
             continue
         used += len(t)
         tc.append((t, list(range(len(t) + 1))))
     tiny = [c for c in small if len(c[1]) <= 160]
-    for fn, t in tiny[:(40 if quick else 2000)]:
-        for e in edits(rnd, t, 15 if quick else 60):
+    for fn, t in tiny[:(30 if quick else 500)]:
+        for e in edits(rnd, t, 12 if quick else 16):
             tc.append((e, [len(e)]))
     trace_job(chk, pool, "grammar+sources", tc)
-
-
-def mc_jobs(chk):
-    quick = chk.tier == "quick"
-    r = tlc.run("Reader_MC", "Reader_MC.cfg" if quick else "Reader_MCt.cfg", timeout=3000)
-    chk.add_tlc("Reader_MC", r)
-    if r.violated or not r.ok:
-        chk.machinery("Reader_MC: design check of the reader specification fails: %s\n%s"
-                      % (r.violated, r.error_trace()[:1500]))
-    rn = tlc.run("Reader_MC", "Reader_MCneg.cfg", timeout=3000)
-    chk.add_tlc("Reader_MCneg", rn)
-    if "ClassIndependent" not in rn.violated:
-        chk.machinery("Reader_MCneg: the deviation 'CR is not a line end' was NOT rejected (vacuous design check)")
 
 
 def run(chk):
@@ -781,17 +807,31 @@ def run(chk):
     chk.rule = ("every enumerated string is read for real in up to 3 concretisations; non-trivial = a string "
                 "whose required outcome is not plain `ok` with zero forms (an error, an owed form, or >= 1 form "
                 "whose skeleton and spans are compared); code->spec: texts whose skeleton was compared")
+    quick = chk.tier == "quick"
     pool = _pool()
     try:
-        mc_jobs(chk)
-        if chk.tier == "quick":
-            gen_job(chk, pool, "Reader_Gq.cfg", "Reader_Gq")
-        else:
-            gen_job(chk, pool, "Reader_Gt.cfg", "Reader_Gt")
-            gen_job(chk, pool, "Reader_Gd.cfg", "Reader_Gd")
+        mc = Bg("Reader_MC", "Reader_MC.cfg" if quick else "Reader_MCt.cfg", timeout=3000,
+                workers=4 if quick else 8, heap="2g")
+        mcneg = Bg("Reader_MC", "Reader_MCneg.cfg", timeout=3000, workers=2, heap="1g")
+        gens = [("Reader_Gq", Bg("Reader", "Reader_Gq.cfg", timeout=3000, workers=8, heap="3g"))] if quick else \
+            [("Reader_Gt", Bg("Reader", "Reader_Gt.cfg", timeout=3000)),
+             ("Reader_Gd", Bg("Reader", "Reader_Gd.cfg", timeout=3000))]
         code_to_spec(chk, pool)
+        r = mc.result()
+        chk.add_tlc("Reader_MC", r)
+        if r.violated or not r.ok:
+            chk.machinery("Reader_MC: design check of the reader specification fails: %s\n%s"
+                          % (r.violated, r.error_trace()[:1500]))
+        rn = mcneg.result()
+        chk.add_tlc("Reader_MCneg", rn)
+        if "ClassIndependent" not in rn.violated:
+            chk.machinery("Reader_MCneg: the deviation 'CR is not a line end' was NOT rejected "
+                          "(vacuous design check)")
+        for name, bg in gens:
+            gen_job(chk, pool, bg.result(), name)
     finally:
         pool.close()
+        pool.join()
     chk.exhaustive = True
 
 
